@@ -5,6 +5,12 @@ _base_note = ("Trusted: Coq kernel; the hand-written Gallina model (tied to /rep
               "projected observables compared; a vm_compute sample cross-checks the extraction); ExtrOcamlBasic extraction and the OCaml driver; "
               "the Go harness. No axioms (Print Assumptions: closed under the global context). strconv.ParseFloat is an oracle argument of the model, not modelled.")
 TEXTS = {
+    "C01": dict(design_ref="6.1", technique="Coq proof (case analysis on the token splitter, lookup and Save) + differential correspondence incl. the tokenizer",
+                level="Theorems C01_attached (`--name=v` stores exactly conv v for every byte string v and every resolving name text; Called, CalledAs; nothing else changes; a text that does not convert is an error), C01_detached_* (`--name v`, dash-looking and missing values are errors), C01_optional_no_value_*, C01_bool, C01_increment, C01_token_split; uniform in the mode. Correspondence: values/Called/CalledAs/error kind and arguments on scalar-heavy definitions with boundary and malformed numerals, plus the splitter against the real isOption on enumerated and random byte strings.",
+                note=_base_note + " The lifting of the per-token theorems to whole command lines (last writer wins) is by the state machine's fold structure and is exercised by the correspondence; strconv.Atoi is transcribed (Model/Option.v atoi) and validated only through the correspondence."),
+    "C02": dict(design_ref="6.2", technique="Coq proof + differential correspondence",
+                level="Theorems C02_option_token, C02_intake_mandatory, C02_intake_greedy with C02_stop_rule/C02_wellformed (exact take/stop rule per element type), C02_full/C02_more/C02_eof (at most max, at least min), C02_*_appended (command-line order), C02_int_element + C02_range_* (inclusive range expansion), C02_map_* (split at first '=', last value wins). For all (min,max), element types, followers. Correspondence on slice/map-heavy definitions comparing values, remaining, error kind and arguments.",
+                note=_base_note + " Definition-time (min,max) validation is a panic in Go and is exercised by the harness (definitions with invalid bounds must panic), not modelled."),
     "C03": dict(design_ref="6.3", technique="Coq proof (induction over the token state machine) + differential correspondence",
                 level="Theorem C03_remaining_is_selection: for every definition tree, mode, unknown mode, require-order setting and argv of any length, a successful Parse returns exactly the selection of argv by one ghost label per token; C03_label_* pin the meaning of the labels; C03_unknown_tokens_stay gives the Pass/Warn clause. Proved for all inputs on the model; the model is run against the real parser on thousands of generated cases per check, comparing remaining byte for byte.",
                 note=_base_note),
